@@ -92,6 +92,15 @@ def gen(rng, tier, i):
         # b defines the action, a is the living inside b that uses it: b's function runs with a as command giver, destructs a, then starts a call_out
         ops += ['as b mk sg arr 3', 'sc b init addx', 'as a ec', 'move a b', 'sc b x dest tp,%s sg %d' % (rng.choice(('cov', 'covf')), rng.randint(1, 2)), 'as a cmd x']
         used_cov = True
+    if rng.random() < 0.3:
+        # a functional that outlives every object of the program it belongs to: made early, dropped (or cleared with the rest)
+        # in a later command, after the driver has finished off the destructed maker
+        act = rng.choice(actors); s = 'so%d' % len(slots)
+        ops.insert(rng.randint(0, len(ops)), '%smkown %s %d' % (act, s, rng.randint(0, 3)))
+        tail = ['--']
+        if rng.random() < 0.5: tail.append('%suse %s %s' % (act, s, rng.choice(('eval', 'copy', 'sprintf', 'save'))))
+        if rng.random() < 0.5: tail.append('%sdrop %s' % (act, s))
+        ops += tail
     fk = rng.randint(0, 60 * n) if rng.random() < 0.4 else None
     # half of the faults are not an error at that instruction but a value stack that has only a few free slots from there on:
     # the driver's own "Stack overflow" is then raised by whichever push comes first, often in the middle of an efun
@@ -119,7 +128,8 @@ def build(t):
     cmds = []
     cur = 'clone /vobj a;clone /vobj b'
     for o in ops:
-        if len(cur) + len(o) > 900: cmds.append(cur); cur = o
+        if o == '--': cmds.append(cur); cur = 'rec next'        # a new command: the driver tidies up in between
+        elif len(cur) + len(o) > 900: cmds.append(cur); cur = o
         else: cur += ';' + o
     cmds.append(cur)
     used_itv = any(o.startswith('itv ') or o.startswith('itve ') for o in ops)
